@@ -46,7 +46,7 @@ def run(chk):
         names = sc.STATES
         WL = set(info["pairs"]) | {(o, n) for o in names for n in info["any"]}
     chk.prove(["Props/Properties_C11.v"])
-    n = 120 if chk.tier == "quick" else 6000
+    n = 500 if chk.tier == "quick" else 20000
     cases = [sc.gen_lifecycle(chk.rng, i) for i in range(n)] + [sc.gen_convergence(chk.rng, i, "conv") for i in range(n // 3)]
     sc.run_sim(chk, cases, oracle, "sim-C11")
     return chk.finish(**FINISH)
